@@ -5,6 +5,8 @@ import FluteModel.Lemmas.BencNoPanic
 import FluteModel.Lemmas.BencEmpty
 import FluteModel.Lemmas.BencSession
 import FluteModel.Props.C06
+import FluteModel.BlockEncWire
+import FluteModel.Props.AdmissionLink
 import FluteModel.Lemmas.BencBridge
 /-
   C08 - per-transfer symbol emission, RFC offsets, end flags.
@@ -20,6 +22,7 @@ import FluteModel.Lemmas.BencBridge
 -/
 namespace Flute.Props.C08
 open Flute Flute.Fec Flute.BlockEnc Flute.BencArith Flute.BencBlocks Flute.BencInv Flute.BencTrace Flute.BencShape Flute.BencPsi
+open Flute.BlockEncWire (toAlc)
 
 variable {P : Params} {c : Bytes} {aL aS nL n : Nat} {closable : Bool} {tr : List (Bool × Pkt)} {s : Enc}
 
@@ -439,6 +442,40 @@ theorem accepts_discharged (hS : Setup P c aL aS nL n) :
     ((∀ e k p, P.codec.accepts e k p = true) → Accepts P c aL aS nL n) :=
   ⟨fun rep => rs_accepts rep hS, fun rep => raptor_accepts rep hS, accepts_of_total hS⟩
 
+/-- **admission ⇒ `Accepts`** (the driver's admission IS agent toi's `Admission.accepts`, the reference model tied to the real
+    `add_object` by engine `toi`): an object ADMITTED by `FileDesc::new` (`Admission.fileDescNew … = ok (ok _)`) whose OTI is
+    Reed-Solomon (FEC ID 5 or 129), No-Code or RaptorQ, sent with the parameters of that OTI and the matching codec, has every
+    block accepted by the codec - `Accepts` is discharged by admission (via AdmissionLink `admitted_block_limits`).  For
+    Raptor (FEC ID 1) admission bounds `a_large ≤ 8192` but does NOT exclude blocks of 2 or 3 symbols (finding raptor-k<4):
+    that hypothesis stays explicit. -/
+theorem admitted_accepts (hS : Setup P c aL aS nL n) (dflt o o' : Flute.Admission.Oti)
+    (hadm : Flute.Admission.fileDescNew dflt (some o) P.len = .ok (.ok o'))
+    (hb : P.b = o.maxSbl) (he : P.e = o.esl) (hp : P.p = o.parity)
+    (hq : Partition.blockPartitioning P.b P.len P.e = .ok (aL, aS, nL, n)) :
+    (∀ rep, (o.fec = .rs28 ∨ o.fec = .rs28us) → P.codec = reedSolomon rep → Accepts P c aL aS nL n) ∧
+    (o.fec = .noCode → P.codec = noCode → Accepts P c aL aS nL n) ∧
+    (∀ rep, o.fec = .raptorq → P.codec = raptorQ rep → Accepts P c aL aS nL n) ∧
+    (∀ rep, o.fec = .raptor → P.codec = raptorLegacy rep → (∀ k, k < n → A aL aS nL k ≠ 2 ∧ A aL aS nL k ≠ 3) →
+       Accepts P c aL aS nL n ∧ aL ≤ 8192) := by
+  have hq' : Partition.blockPartitioning (Flute.Props.C01.Admission.chosen dflt (some o)).maxSbl P.len
+      (Flute.Props.C01.Admission.chosen dflt (some o)).esl = .ok (aL, aS, nL, n) := by
+    show Partition.blockPartitioning o.maxSbl P.len o.esl = _
+    rw [← hb, ← he]; exact hq
+  obtain ⟨l1, l2⟩ := Flute.Props.C01.Admission.admitted_block_limits dflt (some o) P.len o' hadm _ hq'
+  refine ⟨?_, ?_, ?_, ?_⟩
+  · intro rep hf hc
+    obtain ⟨q1, q2⟩ := l1 hf
+    exact rs_accepts rep hS hc (by rw [hp]; exact q1) (by rw [hp]; exact q2)
+  · intro _ hc; exact accepts_of_total hS (by rw [hc]; intro _ _ _; rfl)
+  · intro rep _ hc; exact accepts_of_total hS (by rw [hc]; intro _ _ _; rfl)
+  · intro rep hf hc hk
+    obtain ⟨q1, _⟩ := l2 (Or.inr hf)
+    refine ⟨raptor_accepts rep hS hc hk, ?_⟩
+    have : Flute.Admission.maxBlockSymbols (Flute.Props.C01.Admission.chosen dflt (some o)).fec = 8192 := by
+      show Flute.Admission.maxBlockSymbols o.fec = 8192
+      rw [hf]; rfl
+    rw [this] at q1; exact q1
+
 /-- bridge to C07: the blocks the encoder cuts are, block for block, `Partition.senderBlocks` (the object of C07's sender
     theorems): same number of symbols `A k`, same byte range `[off k, off (k+1))` -/
 theorem sender_slicing_is_senderBlocks (hS : Setup P c aL aS nL n) (hA : Accepts P c aL aS nL n) :
@@ -457,12 +494,6 @@ theorem session_b_only_in_last_transfer :
       { P := { codec := reedSolomon (fun _ _ _ _ => []), e := 2, b := 2, p := 1, window := 2, len := 5 },
         src := .buffer [1, 2, 3, 4, 5], maxtc := 3, carousel := false, allowStop := false }) =
       [false, false, false, false, false, false, false, false, false, false, false, false, false, false, true] := by decide
-
-/-- the `pkt::Pkt` handed to `alc::new_alc_pkt` by `SenderSession::run` for a block-encoder packet of an object:
-    the encoder's fields plus the file's (TOI, transfer length, cenc) -/
-def toAlc (p : Pkt) (toi tlen cenc : Nat) (inbandCenc : Bool) : Flute.Alc.Pkt :=
-  { payload := p.payload, transferLength := tlen, esi := p.esi, sbn := p.sbn, toi := toi, fdtId := none, cenc := cenc,
-    inbandCenc := inbandCenc, closeObject := p.closeObject, sourceBlockLength := p.sbl, senderCurrentTime := false }
 
 /-- A / B flags ON THE WIRE, about agent wire's model of the real builders (`Alc.newAlcPkt`, `Alc.newAlcPktCloseSession`,
     `Alc.parseAlcPkt`; C06 `alc_pkt_roundtrip`, `close_session_roundtrip`):
